@@ -2,6 +2,7 @@
   C04 — CAS values are unique and strictly increasing, whatever the clock does.
 -/
 import Rosmar.Proofs.Clock
+import Rosmar.Colls
 namespace Rosmar
 
 /-- **Whatever the physical clock reads** (standing still, jumping backwards, any value at all), a timestamp drawn
@@ -77,5 +78,36 @@ example :
                               .clock 1000, .set "c0" "a" 0 false "2" false]).1
     s1.acked = [4980738, 4980737, 4980736] := by
   decide
+
+/-- **Dropping a collection does not lower the marks the clock is re-seeded from**: the bucket's own high-water mark, the
+committed log and the clock are untouched, so a reopen after the drop – even of the collection that received the highest CAS –
+still hands out only CAS values above everything committed before (`C04_reopen` applies to the state after the drop). -/
+theorem C04_drop_keeps_clock_invariant (s : State) (c : String) (h : ClockInv s) : ClockInv (opDropColl s c) := by
+  obtain ⟨h1, h2, h3, h4⟩ := h
+  refine ⟨h1, h2, h3, ?_⟩
+  intro p hp
+  unfold opDropColl at hp
+  exact h4 p (List.mem_filter.mp hp).1
+
+theorem C04_create_keeps_clock_invariant (s : State) (c : String) (h : ClockInv s) : ClockInv (opMkColl s c).1 := by
+  obtain ⟨h1, h2, h3, h4⟩ := h
+  unfold opMkColl
+  split
+  · exact ⟨h1, h2, h3, h4⟩
+  · refine ⟨h1, h2, h3, ?_⟩
+    intro p hp
+    simp only [List.mem_append, List.mem_singleton] at hp
+    rcases hp with hp | rfl
+    · exact h4 p hp
+    · exact Nat.zero_le _
+
+theorem C04_reopen_after_drop (s : State) (c : String) (h : ClockInv s) (processHlc phys : Nat) :
+    ∀ x ∈ (reopen (opDropColl s c) processHlc).acked, x < hlcNow (reopen (opDropColl s c) processHlc).hlc phys := by
+  intro x hx
+  have hi := reopen_clockInv _ processHlc (C04_drop_keeps_clock_invariant s c h)
+  have h1 := hi.2.1 x hx
+  have h2 := hi.2.2.1
+  have h3 := hlcNow_gt (reopen (opDropColl s c) processHlc).hlc phys
+  omega
 
 end Rosmar
